@@ -263,12 +263,20 @@ def law_sweep(ctx, em):
     for k in range(ctx.n(20, 400)):
         m = int(rng.integers(1, 30))
         grid = np.sort(10 ** rng.uniform(9, 14, m))
+        # grids as users have them: ascending, descending (c / an ascending wavelength grid), in no order (two bands
+        # concatenated) -- element i of the returned spectrum belongs to element i of the returned grid in every case
+        grid_order = k % 3
+        if grid_order == 1:
+            grid = grid[::-1].copy()
+        elif grid_order == 2:
+            grid = grid[rng.permutation(m)]
         extra = [(), (3,), (2, 2), (1, 3, 2)][k % 4]
         spec = 10 ** rng.uniform(-20, -10, (m,) + extra)
         pm, lam = em.perfrequency2perwavelength(spec, grid)
         back, g2 = em.perwavelength2perfrequency(pm, lam)
         law("density:f->l->f", [np.max(rel(back, spec)) > 1e-13 or np.max(rel(g2, grid)) > 1e-13], [grid[:1]], "perwavelength2perfrequency inverts perfrequency2perwavelength")
-        law("density:grid-ascending", [np.any(np.diff(lam) <= 0)] if m > 1 else [False], [grid[:1]], "wavelength grid ascending (reversed)")
+        law("density:grid-ascending", [np.any(np.diff(lam) <= 0)] if (m > 1 and grid_order == 0) else [False], [grid[:1]], "wavelength grid ascending (reversed)")
+        law("density:grid-values", [np.max(rel(np.sort(lam), np.sort(C / grid))) > 1e-13], [grid[:1]], "the returned wavelength grid holds c / f of every frequency")
         pw, wn = em.perfrequency2perwavenumber(spec, grid)
         back, g2 = em.perwavenumber2perfrequency(pw, wn)
         law("density:f->n->f", [np.max(rel(back, spec)) > 1e-13 or np.max(rel(g2, grid)) > 1e-13], [grid[:1]], "perwavenumber2perfrequency inverts perfrequency2perwavenumber")
